@@ -3,7 +3,7 @@
     Statements only; every proof is [exact] of a lemma in Proofs/MergeProofs.v.
     All theorems hold for every scalar instance, in particular for [F64], the
     instance the correspondence check compares with pkg/sparse. *)
-From Coq Require Import List Arith Permutation Floats.
+From Coq Require Import List Arith Bool Permutation Floats.
 From ET Require Import Model.Scalar Model.Sparse Proofs.SparseBase Proofs.MergeProofs.
 Import ListNotations.
 
